@@ -33,6 +33,12 @@ Definition mout_eqb (a b : mout) : bool :=
   | MList x, MList y => list_eqb N.eqb x y
   | _, _ => false
   end.
+Definition wout_eqb (a b : wout) : bool :=
+  match a, b with
+  | WOk, WOk => true
+  | WPresent x, WPresent y => Bool.eqb x y
+  | _, _ => false
+  end.
 Definition iout_eqb (a b : iout) : bool :=
   match a, b with
   | IAdded, IAdded | IErr, IErr => true
@@ -52,6 +58,7 @@ Inductive xcase :=
 | HMsg (h : list (hrec mop mout)) (w : list nat)
 (* provider level, over the in-memory base: C11's provider-level CONTRACT machine (Close deletes) *)
 | HProv (h : list (hrec pop pout)) (w : list nat)
+| HPool (h : list (hrec wop wout)) (w : list nat)
 (* request/response rendezvous: the forced schedule, the requester's result, the handlers' final states *)
 | HRv (msgs : list N) (sched : list (nat * bool)) (res : option N) (os : list robs).
 
@@ -64,6 +71,7 @@ Definition check_xcase (x : xcase) : bool :=
   | HInbox h w => valid_linearization inbox_step iout_eqb [] h w
   | HMsg h w => valid_linearization msg_step mout_eqb [] h w
   | HProv h w => valid_linearization (pspec_step false) pout_eqb [] h w
+  | HPool h w => valid_linearization pool_step wout_eqb [] h w
   | HRv msgs sched res os => rv_check msgs sched res os
   end.
 
